@@ -113,7 +113,36 @@ def merge_meta(I, a, b, node):
 # elementwise arithmetic
 
 
+def _elements_of(x, n=None):
+    """the entries of a small explicit vector (array built from a sequence of scalars, or the sequence itself)"""
+    if isinstance(x, Arr) and x.meta.get("elements") is not None and x.ndim == 1:
+        return list(x.meta["elements"])
+    if isinstance(x, Tup) and x.kind in ("tuple", "list") and all(isinstance(i, Expr) for i in x.items):
+        return list(x.items)
+    if isinstance(x, Expr) and n is not None:
+        return [x] * n
+    return None
+
+
 def elementwise(I, op, a, b, node):
+    ea = _elements_of(a)
+    eb = _elements_of(b)
+    if (ea is not None and isinstance(a, Arr)) or (eb is not None and isinstance(b, Arr)):
+        n = len(ea) if ea is not None else len(eb)
+        ea = ea if ea is not None else _elements_of(a, n)
+        eb = eb if eb is not None else _elements_of(b, n)
+        if ea is not None and eb is not None and len(ea) == len(eb):
+            els = [I.scalar_binop(op, x, y, node) for x, y in zip(ea, eb)]
+            same = all(isinstance(e, Expr) and e.eq(els[0]) for e in els) if els and isinstance(els[0], Expr) else False
+            src = a if isinstance(a, Arr) else b
+            meta = {"elements": els}
+            for k in ("alias_of_param",):
+                pass
+            val = els[0] if same else alg.fn("elem", alg.sym("vector@%s:%s" % (I.cur_mod.name, getattr(node, "lineno", 0))))
+            dt = join_dtype(a.dtype if isinstance(a, Arr) else _scalar_dtype(a), b.dtype if isinstance(b, Arr) else _scalar_dtype(b))
+            if isinstance(op, ast.Div):
+                dt = "float"
+            return Arr((alg.const(len(els)),), val, dt, meta)
     sa = a.shape if isinstance(a, Arr) else ()
     sb = b.shape if isinstance(b, Arr) else ()
     shape = broadcast(I, sa, sb, node)
@@ -315,6 +344,7 @@ def _slice_len(I, sl, dim):
     return hi - lo, lo
 
 
+NARROW_DTYPES = ("float32", "complex64", "float16", "single", "csingle")
 MODE_DIMS = []  # dimensions known to count flattened horizontal modes (reset for every abstract run)
 
 
@@ -786,6 +816,8 @@ def method(I, f, args, kwargs, node):
         if name in ("copy", "astype", "flatten"):
             r = b.copy()
             if name == "astype" and args and isinstance(args[0], str):
+                if args[0] in NARROW_DTYPES and (b.dtype or "float") not in NARROW_DTYPES:
+                    I.event("narrowing-cast", node, "%s of dtype %s is cast to %s" % (b.name or "a computed array", b.dtype or "float", args[0]))
                 r.dtype = args[0]
             return r
         if name in ("ravel", "flatten", "reshape") and kwargs.get("order") not in (None, "C"):
@@ -819,6 +851,14 @@ def method(I, f, args, kwargs, node):
             return Opaque("list-of-array", {"of": b})
         if name in ("tobytes",):
             return Opaque("bytes", {"of": b})
+        if name in ("any", "all") and not args:
+            els = _elements_of(b)
+            if els is not None:
+                preds = [I.cmp_expr(e, "!=") for e in els]
+                if all(isinstance(p, bool) for p in preds):
+                    return any(preds) if name == "any" else all(preds)
+                return BoolCombo("or" if name == "any" else "and", preds)
+            return Unknown("array.%s()" % name)
         if name in ("sum", "max", "min", "mean"):
             return alg.fn(name, b.val) if isinstance(b.val, Expr) else Unknown(name)
         if name == "item":
@@ -1187,6 +1227,19 @@ def external(I, dotted, args, kwargs, node):
         I.event("unknown-call", node, dotted)
         return Unknown("call of %s" % dotted)
     return h(I, args, kwargs, node)
+
+
+def np_asarray(I, args, kwargs, node):
+    r = np_array(I, args, kwargs, node)
+    x = args[0]
+    derived = getattr(I, "param_objs", {}).get(id(x)) is x or isinstance(x, SymArr) or (isinstance(x, Arr) and (x.meta.get("param") or x.meta.get("alias_of_param"))) or (
+        isinstance(x, Tup) and any(isinstance(i, Expr) and any(a.kind == "sym" and a.meta == "param" for a in i.atoms()) for i in x.items))
+    if isinstance(r, Arr) and derived:
+        if r is x:
+            r = r.copy()
+        r.meta = dict(r.meta)
+        r.meta["alias_of_param"] = True  # np.asarray hands back the caller's own array when it already has the requested dtype
+    return r
 
 
 def np_array(I, args, kwargs, node):
@@ -1633,6 +1686,20 @@ def np_logical(op):
     return h
 
 
+def np_reduce(name):
+    def h(I, args, kwargs, node):
+        x = args[0]
+        if kwargs.get("axis") is not None or len(args) > 1:
+            return Unknown("np.%s over an axis" % name)
+        if isinstance(x, Arr) and isinstance(x.val, Expr):
+            return alg.fn(name, x.val)  # one number for the whole array
+        if isinstance(x, Expr):
+            return x
+        return Unknown("np.%s" % name)
+
+    return h
+
+
 def np_roll(I, args, kwargs, node):
     x, shift = args[0], _kw(args, kwargs, 1, "shift")
     if isinstance(x, Arr) and x.ndim == 1 and isinstance(x.val, Expr) and isinstance(shift, Expr) and kwargs.get("axis") is None:
@@ -1754,7 +1821,22 @@ def fft_family(direction):
             name = "dft0" if I.ctx == "mean" else "dft"
             if direction == "inv":
                 name = "i" + name
-            coeff = alg.fn(name, srcsym, widths[-2][0], widths[-1][0], ny, nx)
+            # the transform is linear: factors that are one number for the whole field (constants, scalar parameters,
+            # reductions such as max|q|) are pulled out of the coefficient atom
+            factor = ONE
+            mono = srcsym.as_mono() if isinstance(srcsym, Expr) else None
+            if mono is not None and len(mono[1]) > 1 or (mono is not None and mono[0] != alg.C1):
+                c0, facs = mono
+                point = ONE
+                factor = alg.const(c0.re) if c0.im == 0 else alg.const(c0.re) + alg.IMAG * alg.const(c0.im)
+                for a, p in facs:
+                    scalar = (a.kind == "sym" and not a.name.startswith(("?", "array@"))) or (a.kind == "fn" and a.name in ("max", "min", "sum", "mean", "count", "nunique", "len", "last"))
+                    if scalar:
+                        factor = factor * alg.power(alg.atom_expr(a), p)
+                    else:
+                        point = point * alg.power(alg.atom_expr(a), p)
+                srcsym = point
+            coeff = alg.fn(name, srcsym, widths[-2][0], widths[-1][0], ny, nx) * factor
             I.event("analysis", node, {"src": src, "pad": pad, "dir": direction, "norm": norm, "scale": scale, "N": (ny, nx)})
             meta = {"spec": Spec("nat", (ny, nx), (ZERO, ZERO)), "analysis_of": {"src": src, "pad": pad, "dir": direction, "norm": norm, "scale": scale, "N": (ny, nx), "where": "%s:%s" % (I.cur_mod.name, node.lineno)}}
             return Arr(x.shape, coeff * scale, "complex128", meta)
@@ -1800,7 +1882,8 @@ def np_isscalar_like(I, args, kwargs, node):
 
 EXT = {
     "numpy.array": np_array,
-    "numpy.asarray": np_array,
+    "numpy.asarray": np_asarray,
+    "numpy.asanyarray": np_asarray,
     "numpy.ones": np_full("ones"),
     "numpy.zeros": np_full("zeros"),
     "numpy.empty": np_full("empty"),
@@ -1817,6 +1900,11 @@ EXT = {
     "numpy.linspace": np_linspace,
     "numpy.arange": np_arange,
     "numpy.roll": np_roll,
+    "numpy.max": np_reduce("max"),
+    "numpy.amax": np_reduce("max"),
+    "numpy.min": np_reduce("min"),
+    "numpy.amin": np_reduce("min"),
+    "numpy.mean": np_reduce("mean"),
     "numpy.logical_and": np_logical("and"),
     "numpy.logical_or": np_logical("or"),
     "numpy.logical_not": np_logical("not"),
